@@ -10,6 +10,7 @@ import (
 	"container/heap"
 	"context"
 	"encoding/gob"
+	"fmt"
 	"sync"
 	"time"
 
@@ -117,3 +118,41 @@ func VerifMachInfo(m *VerifSliceMachine) (addr string, max, used, health int) {
 	return m.Addr, m.maxTaskProcs, m.taskProcs, int(m.health)
 }
 
+
+// ---- C03: evaluator state
+
+type VerifState = state
+
+func VerifNewState() *VerifState { return newState() }
+
+func VerifTasksOf(m map[*Task]bool) []*Task {
+	var ts []*Task
+	for t := range m {
+		ts = append(ts, t)
+	}
+	return ts
+}
+func (s *state) VerifTodo() []*Task    { return VerifTasksOf(s.todo) }
+func (s *state) VerifPending() []*Task { return VerifTasksOf(s.pending) }
+
+// VerifSetState sets a task's state directly (as an executor or a previous
+// evaluation would have left it).
+func VerifSetState(t *Task, st TaskState) {
+	t.Lock()
+	t.state = st
+	if st == TaskErr {
+		t.err = fmt.Errorf("injected error")
+	} else {
+		t.err = nil
+	}
+	t.Broadcast()
+	t.Unlock()
+}
+
+func VerifConsecutiveLost(t *Task) int {
+	t.Lock()
+	defer t.Unlock()
+	return t.consecutiveLost
+}
+
+const VerifMaxConsecutiveLost = maxConsecutiveLost
